@@ -504,23 +504,79 @@ def rule_view_write(ctx: RuleContext, p: Program, rid: str) -> None:
               'clear does not drop exactly the view\'s own raw positions', cl.where)
     nw = p.cls('RepeatedNodeWrapper', 'models.internal.properties')
     dm = p.method(nw, 'drop_many', inherited=False)
-    src = norm(dm.node)
-    prm = dm.params[1]
-    checks = {
-        'sorted descending': f'{prm} = sorted({prm}, reverse=True)' in src,
-        'consecutive runs via groupby(i + counter)': f'itertools.groupby({prm}, key=lambda i: i + next(count))' in src and 'count = itertools.count()' in src,
-        'run [r[-1], r[0] + 1)': 'self._del_tokens(r[-1], r[0] + 1)' in src,
-        'items refiltered by position': f'self._repeated.items[:] = (item for i, item in enumerate(self._repeated.items) if i not in {prm})' in src,
-    }
-    bad = [k for k, v in checks.items() if not v]
-    ctx.check(not bad, rid, 'models.internal.properties:RepeatedNodeWrapper.drop_many', f'{bad or "ok"}',
-              f'drop_many lacks: {bad}', dm.where, note='descending runs of consecutive positions; refilter by position')
-    # token side happens before the item list changes (positions are still valid)
-    order = [('tokens' if 'self._del_tokens' in norm(s) else 'items' if 'self._repeated.items[:]' in norm(s) else 'notify' if '_notify' in norm(s) else '')
-             for s in stmts_no_doc(dm.node.body)]
-    order = [o for o in order if o]
-    ctx.check(order == ['tokens', 'items', 'notify'], rid, 'models.internal.properties:RepeatedNodeWrapper.drop_many: order', f'{order}',
-              f'drop_many does {order}; token ranges must be deleted while the item positions are still valid, then items, then notify', dm.where)
+    problem, cases = _drop_many_sem(p, dm)
+    ctx.check(not problem, rid, 'models.internal.properties:RepeatedNodeWrapper.drop_many', problem or 'ok',
+              f'drop_many, interpreted over every set of positions of lists of up to 5 items (given in any order): {problem}', dm.where,
+              note=f'{cases} (list, positions) cases: token ranges are the maximal runs, highest first, while the item positions are still valid; '
+                   f'then the items are refiltered by position; then the views are notified')
+
+
+def _drop_many_sem(p: Program, dm: Any) -> tuple[str, int]:
+    """drop_many interpreted over abstract wrappers: which token ranges it deletes, in which order relative to the item list update and
+    the notification, and what the item list holds afterwards"""
+    import itertools
+    from . import possem
+    from .tokenstore import TS
+    ts = TS(p)
+    m = p.module('models.internal.properties')
+
+    class Interp(possem.PosInterp):
+        tag = 'VIEW-WRITE'
+
+        def __init__(self, me: Any) -> None:
+            super().__init__(ts, [], module=m)
+            self.me = me
+            self.events: list = []
+
+        def expr(self, e: Any, env: dict) -> Any:                 # type: ignore[override]
+            if isinstance(e, ast.Call) and isinstance(e.func, ast.Attribute) and isinstance(e.func.value, ast.Name) and env.get(e.func.value.id) is self.me:
+                args = [self.expr(a, env) for a in e.args]
+                if e.func.attr == '_del_tokens':
+                    self.events.append(('del', args[0], args[1], len(self.me.f['_repeated'].f['items'])))
+                    return None
+                if e.func.attr in ('_notify', '_notify_splice'):
+                    self.events.append(('notify', e.func.attr, tuple(args[:2])))
+                    return None
+            return super().expr(e, env)
+
+    cases = 0
+    for n in range(0, 6):
+        for k in range(0, n + 1):
+            for sel in itertools.combinations(range(n), k):
+                for order in ([list(sel), list(reversed(sel))] if k > 1 else [list(sel)]):
+                    items = [possem.Obj('Item', {}, f'item{i}') for i in range(n)]
+                    rep = possem.Obj('Repeated', {'items': list(items)}, 'repeated')
+                    me = possem.Obj('RepeatedNodeWrapper', {'_repeated': rep}, 'wrapper')
+                    it = Interp(me)
+                    cases += 1
+                    where_ = f'{n} items, positions {order}'
+                    try:
+                        it.call_function(dm, [me, list(order)], {})
+                    except possem.Raised as ex:
+                        return f'{where_}: raises {ex}', cases
+                    dels = [ev for ev in it.events if ev[0] == 'del']
+                    if any(ev[3] != n for ev in dels):
+                        return f'{where_}: a token range is deleted after the item list has changed (positions no longer valid)', cases
+                    # expected: maximal runs of consecutive positions, highest run first, as half-open ranges
+                    runs: list[tuple[int, int]] = []
+                    for i in sorted(sel):
+                        if runs and runs[-1][1] == i:
+                            runs[-1] = (runs[-1][0], i + 1)
+                        else:
+                            runs.append((i, i + 1))
+                    got = [(ev[1], ev[2]) for ev in dels]
+                    covered = sorted(i for a_, b_ in got for i in range(a_, b_))
+                    if covered != sorted(sel):
+                        return f'{where_}: the deleted token ranges {got} do not cover exactly the given positions', cases
+                    if any(got[j][0] < got[j + 1][1] for j in range(len(got) - 1)):
+                        return f'{where_}: the token ranges {got} are not deleted from the highest down (a deletion shifts the positions above it)', cases
+                    left = rep.f['items']
+                    if [id(x) for x in left] != [id(x) for i, x in enumerate(items) if i not in sel]:
+                        return f'{where_}: the item list afterwards is not the items at the other positions, in order', cases
+                    notes = [j for j, ev in enumerate(it.events) if ev[0] == 'notify']
+                    if not notes or (dels and notes[0] < max(j for j, ev in enumerate(it.events) if ev[0] == 'del')):
+                        return f'{where_}: the views are not notified after the deletion', cases
+    return '', cases
 
 
 # ====================================================================== VIEW-SNAPSHOT
